@@ -357,6 +357,8 @@ class SgzReader(object):
 
     def get_inline_index(self, il_no):
         """Get inline index from inline number"""
+        if self.is_2d:
+            raise WrongDimensionalityError("Trying to read inlines from 2D file")
         return coord_to_index(il_no, self.ilines)
 
     def read_inline_number(self, il_no):
@@ -400,6 +402,8 @@ class SgzReader(object):
 
     def get_crossline_index(self, xl_no):
         """Get crossline index from crossline number"""
+        if self.is_2d:
+            raise WrongDimensionalityError("Trying to read crosslines from 2D file")
         return coord_to_index(xl_no, self.xlines)
 
     def read_crossline_number(self, xl_no):
